@@ -14,8 +14,9 @@ Layer B/C of the model (property C02).  Mirrors
 Conventions.  A child iterator is used by its parent only through `IterOps`: the five seek methods (state
 passing) and `cur`, the pair under the cursor (`Valid()`/`Key()`/`Value()`).  The Boolean every Go seek
 method returns is `Valid()` right after the call for all iterators in this file (array, memdb, block,
-indexed, merged); the model therefore reads it off `cur` (`IterOps.ok`).  Errors are not modelled (C02 is
-about error-free iteration): `iterErr`/`dataErr`/`indexErr` are no-ops, keys always parse.
+indexed, merged); the model therefore reads it off `cur` (`IterOps.ok`).  Errors are not modelled here (C02 is
+about error-free iteration): `iterErr`/`dataErr`/`indexErr` are no-ops, keys always parse.  The error paths
+(`dataErr`, `iterErr`, `setErr`, strict / non-strict) are `Model/IterErr.lean`, built on these definitions.
 Core Lean only.
 -/
 namespace GoLevel
